@@ -46,6 +46,7 @@ def gen_case(rng):
     npre = 0 if rng.random() < 0.15 else rng.randint(1, 20)
     npost = rng.randint(1, 8)
     c["npre"], c["npost"] = npre, npost
+    c["early_resets"] = sorted(rng.sample(range(npre), min(npre, rng.choice([0, 0, 1, 2])))) if npre else []
     c["n"] = npre + npost
     c["data"] = F.gen_trace(rng, c02.all_vars(c) or ["a"], c["n"])
     # jittered, sometimes irregular time stamps so that the counter is non-zero before the reset
@@ -74,6 +75,10 @@ def run_impl(case):
         a = mk()
         for i in range(npre):
             a.update(ts[i], [(v, data[v][i]) for v in vs])
+            # several reset() calls on the same object: an earlier reset (even one before the first update) must not make a
+            # later one ineffective
+            if i in case.get("early_resets", ()):
+                a.reset()
         a.reset()
         cnt_after_reset = a.sampling_violation_counter
         outs_a = [a.update(ts[i] - ts[npre], [(v, data[v][i]) for v in vs]) for i in range(npre, n)]
@@ -103,7 +108,7 @@ def model(cases):
 def check_case(ctx, case, m):
     text, res = run_impl(case)
     rep = {"spec": text, "formula": F.to_proto(case["f"]), "pastify": case["pastify"], "data": case["data"], "ts": case["ts"],
-           "npre": case["npre"], "n": case["n"], "asserts": [[nm, F.to_proto(b)] for nm, b in case["asserts"]] if case["asserts"] else None,
+           "npre": case["npre"], "early_resets": case.get("early_resets", []), "n": case["n"], "asserts": [[nm, F.to_proto(b)] for nm, b in case["asserts"]] if case["asserts"] else None,
            "impl": res, "model_post_outputs": m}
     if res[0] != "ok":
         return Violation("reset()/update() raised %r (history of %d updates): %s" % (res[1:], case["npre"], text.replace("\n", " ")),
@@ -158,7 +163,8 @@ def replay(ctx, obj):
         return dense.replay_reset(ctx, obj)
     c = {"stream": "replay", "f": F.from_proto(obj["formula"]), "pastify": obj["pastify"], "npre": obj["npre"], "n": obj["n"],
          "npost": obj["n"] - obj["npre"], "ts": obj["ts"], "data": {k: [float(x) for x in v] for k, v in obj["data"].items()},
-         "asserts": [(nm, F.from_proto(b)) for nm, b in obj["asserts"]] if obj.get("asserts") else None}
+         "asserts": [(nm, F.from_proto(b)) for nm, b in obj["asserts"]] if obj.get("asserts") else None,
+         "early_resets": obj.get("early_resets", [])}
     m, = model([c])
     v, d = check_case(Ctx(ctx.id, ctx.tier, ctx.seed), c, m)
     return (v is None), (v.what if v else "reset monitor behaves like a fresh one on the replayed case")
